@@ -3,6 +3,7 @@ package interp
 import (
 	"fmt"
 	"go/constant"
+	"go/token"
 	"log"
 	"math"
 	"path/filepath"
@@ -35,6 +36,72 @@ var constOp = map[action]func(*node){
 	aBitNot: bitNotConst,
 	aNeg:    negConst,
 	aPos:    posConst,
+}
+
+// constOverflow returns an error if the exact value of a folded constant
+// expression of a typed integer type is not representable in that type.
+// The operations on typed constants are computed in the type itself, where
+// they wrap around silently.
+func constOverflow(n *node) error {
+	typ := n.typ.TypeOf()
+	if n.typ.untyped || !isInt(typ) {
+		return nil
+	}
+	exact := func(c *node) constant.Value {
+		v := c.rval
+		switch t := v.Type(); {
+		case isConstantValue(t):
+			if x := constant.ToInt(vConstantValue(v)); x.Kind() == constant.Int {
+				return x
+			}
+		case isUint(t):
+			return constant.MakeUint64(v.Uint())
+		case isInt(t):
+			return constant.MakeInt64(v.Int())
+		}
+		return nil
+	}
+	x := exact(n.child[0])
+	if x == nil {
+		return nil
+	}
+	var v constant.Value
+	switch {
+	case n.action == aNeg:
+		v = constant.UnaryOp(token.SUB, x, 0)
+	case len(n.child) < 2:
+		return nil
+	default:
+		y := exact(n.child[1])
+		if y == nil {
+			return nil
+		}
+		switch n.action {
+		case aAdd:
+			v = constant.BinaryOp(x, token.ADD, y)
+		case aSub:
+			v = constant.BinaryOp(x, token.SUB, y)
+		case aMul:
+			v = constant.BinaryOp(x, token.MUL, y)
+		case aQuo:
+			if constant.Sign(y) == 0 {
+				return nil
+			}
+			v = constant.BinaryOp(x, token.QUO_ASSIGN, y)
+		case aShl:
+			s, ok := constant.Uint64Val(y)
+			if !ok || s > 1024 {
+				return nil
+			}
+			v = constant.Shift(x, token.SHL, uint(s))
+		default:
+			return nil
+		}
+	}
+	if !representableConst(v, typ) {
+		return n.cfgErrorf("constant %s overflows %s", v, n.typ.id())
+	}
+	return nil
 }
 
 var constBltn = map[string]func(*node){
@@ -967,6 +1034,9 @@ func (interp *Interpreter) cfg(root *node, sc *scope, importPath, pkgName string
 			if c0.rval.IsValid() && c1.rval.IsValid() && (!isInterface(n.typ)) && constOp[n.action] != nil {
 				n.typ.TypeOf()       // Force compute of reflection type.
 				constOp[n.action](n) // Compute a constant result now rather than during exec.
+				if err = constOverflow(n); err != nil {
+					break
+				}
 			}
 			switch {
 			case n.rval.IsValid():
@@ -2264,6 +2334,9 @@ func (interp *Interpreter) cfg(root *node, sc *scope, importPath, pkgName string
 			if n.child[0].rval.IsValid() && !isInterface(n.typ) && constOp[n.action] != nil {
 				n.typ.TypeOf() // init reflect type
 				constOp[n.action](n)
+				if err = constOverflow(n); err != nil {
+					break
+				}
 			}
 			switch {
 			case n.rval.IsValid():
